@@ -114,6 +114,22 @@ def search(ctx):
         if len(samples) < 3: samples.append({'segment': gen.seg_json(s), 'calls': calls, 't': t})
         f = check(s, calls, t, centre, angle, k)
         if f: fails.append({'class': 'C09-identity', 'what': f[0], 'input': {'segment': gen.seg_json(s), 'calls': calls, 't': t, 'centre': [centre.x, centre.y], 'angle': angle, 'k': k}, 'observed': f, 'expected': 'identities of C09 within 1e-9*scale'})
+    # paths built by the shape constructors (which share Point objects between neighbouring segments), transformed directly
+    from beziers.path.geometricshapes import Ellipse, Rectangle
+    for _ in range(ctx.n(20, 300)):
+        a, b = rng.uniform(20, 400), rng.uniform(20, 400)
+        mk = (lambda: Ellipse(a, b)) if rng.random() < 0.6 else (lambda: Rectangle(a, b))
+        centre = P(rng.uniform(-100, 100), rng.uniform(-100, 100)); ang = rng.uniform(-3, 3)
+        orig = mk(); moved = mk().rotate(centre, ang)
+        for s0, s1 in zip(orig.asSegments(), moved.asSegments()):
+            for p0, p1 in zip(s0.points, s1.points):
+                dx, dy = p0.x - centre.x, p0.y - centre.y
+                wx, wy = centre.x + dx * math.cos(ang) - dy * math.sin(ang), centre.y + dx * math.sin(ang) + dy * math.cos(ang)
+                if abs(p1.x - wx) > 1e-7 * (1 + a + b) or abs(p1.y - wy) > 1e-7 * (1 + a + b):
+                    fails.append({'class': 'C09-identity', 'what': f'path.rotate on a constructor-built shape moved control point ({p0.x},{p0.y}) to ({p1.x},{p1.y}), expected ({wx},{wy})', 'input': {'shape': [a, b], 'centre': [centre.x, centre.y], 'angle': ang}, 'observed': [p1.x, p1.y], 'expected': [wx, wy]})
+                    break
+            else: continue
+            break
     # invertible maps with a tiny determinant (uniform and non-uniform small scalings): the inverse must still undo them
     for _ in range(ctx.n(40, 600)):
         sx = 10 ** rng.uniform(-7, -2); sy = rng.choice([sx, 10 ** rng.uniform(-7, -2)])
@@ -135,6 +151,8 @@ def search(ctx):
 
 def replay(ctx, payload):
     i = payload['input']
+    if 'shape' in i:
+        return {'fails': True, 'observed': 'shape transform replay: rerun the search with the same seed'}
     if 'invert_calls' in i:
         m = build([tuple(c) for c in i['invert_calls']]); mi = AffineTransformation([list(r) for r in m.matrix]); mi.invert()
         p = P(*i['point']); q = p.transformed(m).transformed(mi)
